@@ -4,6 +4,7 @@
  * iteration counts (H3).  Runs in the asan build (and a smaller sweep in the tsan build). */
 #include "drv_util.h"
 
+#define PCACONVERGENCE_DOC 1e-10   /* the documented stopping threshold, not the macro of the tree under test */
 static long ncases(int tier) { return vh_is_tsan() ? (tier ? 1500 : 160) : (tier ? 150000 : 3000); }
 
 static const size_t NPROCS[] = { 2, 3, 5, 8, 24, 0 /* rows+3 */ };
@@ -139,7 +140,14 @@ static void run_case(vh_ctx *c)
       }
       ve = m->varexp->data[k];
       if (!(ve >= -1e-9)) vh_fail(c, "PCA|varexp-negative", "varexp[%zu]=%.17g", k, (double)ve);
-      if (k > 0 && m->varexp->data[k] > m->varexp->data[k - 1] + 0.02) vh_fail(c, "PCA|varexp-increasing", "varexp[%zu]=%.10g > varexp[%zu]=%.10g", k, m->varexp->data[k], k - 1, m->varexp->data[k - 1]);
+      if (k > 0 && m->varexp->data[k] > m->varexp->data[k - 1] + 0.02) {
+        /* input class of the inversion: was component k-1 started from a column (almost) orthogonal to the dominant axis of its residual? */
+        ldm *Ek = ldm_copy(T); size_t a, b, q; double rho2, cos0, thr;
+        for (q = 0; q + 1 < k; q++) for (a = 0; a < n; a++) for (b = 0; b < p; b++) LM(Ek, a, b) -= (ld)m->scores->data[a][q] * m->loadings->data[b][q];
+        cos0 = nipals_start_cos(Ek, &rho2); thr = nipals_wrong_axis_threshold(n, PCACONVERGENCE_DOC, rho2);
+        ldm_free(Ek);
+        vh_fail(c, cos0 <= thr ? "PCA|varexp-increasing|start-column-orthogonal-to-dominant-axis" : "PCA|varexp-increasing", "varexp[%zu]=%.10g > varexp[%zu]=%.10g (start column of component %zu: |cos| to the dominant axis %.3g, class threshold %.3g, eigenvalue ratio %.4f)", k, m->varexp->data[k], k - 1, m->varexp->data[k - 1], k - 1, cos0, thr, rho2);
+      }
       if (fabsl(ve - 100 * tt / ss) > tolv * (double)(tt / ss) + 1e-9) vh_fail(c, "PCA|varexp-bookkeeping", "varexp[%zu]=%.12g but 100 t't/ss=%.12Lg", k, (double)ve, 100 * tt / ss);
       vh_max("max_varexp_vs_ttss_rel", (double)(fabsl(ve - 100 * tt / ss) / (100 * tt / ss + 1e-300L)));
       sumve += ve;
